@@ -36,9 +36,12 @@ type Term struct {
 	args []*Term
 	id   int
 	// solver bookkeeping
-	emitLevel int // -1 = not emitted to the solver
+	emitLevel int // -1 = not emitted to the solver; >= 0 = defined (declarations are global)
 	emitGen   int
 	defn      *varDefn // for "var": defining constraint asserted when first referenced
+	// defs: defining constraints (see varDefn) of auxiliary variables this term mentions,
+	// transitively; they must be asserted in any query that mentions the term.
+	defs []*Term
 }
 
 // varDefn is a constraint that defines a group of auxiliary variables as a total
@@ -51,9 +54,95 @@ type varDefn struct {
 
 var termCounter int
 
+// Terms are hash-consed: structurally equal terms are the same object (and keep their
+// solver-side definition across paths, since declarations are global in the solver).
+type termKey struct {
+	op         string
+	sort       Sort
+	a0, a1, a2 int
+	name       string
+}
+
+var (
+	internSmall = map[termKey]*Term{}
+	internBig   = map[string]*Term{}
+)
+
+func argID(t *Term) int {
+	if t.id == 0 {
+		// constants are not interned: derive a stable negative key from sort and value
+		return -int(uint32(t.cv*2654435761)^uint32(t.cv>>32)^uint32(t.sort)<<24) - 1
+	}
+	return t.id
+}
+
+func sameArgs(a, b []*Term) bool {
+	if len(a) != len(b) {
+		return false
+	}
+	for i := range a {
+		if a[i] != b[i] && !(a[i].isConst() && b[i].isConst() && a[i].sort == b[i].sort && a[i].cv == b[i].cv) {
+			return false
+		}
+	}
+	return true
+}
+
 func newTerm(op string, sort Sort, args ...*Term) *Term {
-	termCounter++
-	return &Term{op: op, sort: sort, args: args, id: termCounter, emitLevel: -1}
+	return newTermNamed(op, sort, "", args...)
+}
+
+func newTermNamed(op string, sort Sort, name string, args ...*Term) *Term {
+	var t *Term
+	if len(args) <= 3 {
+		k := termKey{op: op, sort: sort, name: name}
+		if len(args) > 0 {
+			k.a0 = argID(args[0])
+		}
+		if len(args) > 1 {
+			k.a1 = argID(args[1])
+		}
+		if len(args) > 2 {
+			k.a2 = argID(args[2])
+		}
+		if t = internSmall[k]; t != nil && sameArgs(t.args, args) {
+			return t
+		}
+		termCounter++
+		t = &Term{op: op, sort: sort, name: name, args: args, id: termCounter, emitLevel: -1}
+		internSmall[k] = t
+	} else {
+		var sb strings.Builder
+		sb.WriteString(op)
+		sb.WriteByte('|')
+		sb.WriteString(strconv.Itoa(int(sort)))
+		for _, a := range args {
+			sb.WriteByte('|')
+			sb.WriteString(strconv.Itoa(argID(a)))
+		}
+		k := sb.String()
+		if t = internBig[k]; t != nil && sameArgs(t.args, args) {
+			return t
+		}
+		termCounter++
+		t = &Term{op: op, sort: sort, name: name, args: args, id: termCounter, emitLevel: -1}
+		internBig[k] = t
+	}
+	for _, a := range args {
+		for _, d := range a.defs {
+			dup := false
+			for _, x := range t.defs {
+				if x == d {
+					dup = true
+					break
+				}
+			}
+			if !dup {
+				t.defs = append(t.defs, d)
+			}
+		}
+	}
+	return t
 }
 
 func mask(w Sort) uint64 {
@@ -84,8 +173,9 @@ func mkIntConst(v int64) *Term {
 }
 
 func mkVar(name string, sort Sort) *Term {
-	t := newTerm("var", sort)
-	t.name = name
+	t := newTermNamed("var", sort, name)
+	t.defs = nil // a fresh use of the name; a defining constraint is attached by the creator if any
+	t.defn = nil
 	return t
 }
 
@@ -462,9 +552,7 @@ func bvExtract(a *Term, hi, lo int) *Term {
 	if (a.op == "zext" || a.op == "sext") && lo == 0 && w <= int(a.args[0].sort) {
 		return bvExtract(a.args[0], hi, lo)
 	}
-	t := newTerm("extract", Sort(w), a)
-	t.name = fmt.Sprintf("(_ extract %d %d)", hi, lo)
-	return t
+	return newTermNamed("extract", Sort(w), fmt.Sprintf("(_ extract %d %d)", hi, lo), a)
 }
 
 func bvZext(a *Term, w int) *Term {
@@ -477,9 +565,7 @@ func bvZext(a *Term, w int) *Term {
 	if a.isConst() {
 		return mkBV(w, a.cv)
 	}
-	t := newTerm("zext", Sort(w), a)
-	t.name = fmt.Sprintf("(_ zero_extend %d)", w-int(a.sort))
-	return t
+	return newTermNamed("zext", Sort(w), fmt.Sprintf("(_ zero_extend %d)", w-int(a.sort)), a)
 }
 
 func bvSext(a *Term, w int) *Term {
@@ -492,9 +578,7 @@ func bvSext(a *Term, w int) *Term {
 	if a.isConst() {
 		return mkBV(w, uint64(a.sval()))
 	}
-	t := newTerm("sext", Sort(w), a)
-	t.name = fmt.Sprintf("(_ sign_extend %d)", w-int(a.sort))
-	return t
+	return newTermNamed("sext", Sort(w), fmt.Sprintf("(_ sign_extend %d)", w-int(a.sort)), a)
 }
 
 // ---- mathematical Int (ranks, choices)
